@@ -1,7 +1,7 @@
 """C19 - the semaphore is safe and live (conformance to the Mesa monitor pattern)."""
 import re
 from . import register
-from ..analysis import backslice, comparisons, branch_of, dominated_region, FLIP
+from ..analysis import backslice, comparisons, branch_of, dominated_region, FLIP, forward_locals
 from ..callgraph import CallGraph
 from ..facts import const_int, op_place, op_local, place_fields, rvalue_places
 
@@ -18,6 +18,7 @@ DOC = {
         'C19.R3': 'release: increment by 1 under the lock; notify_one/notify_all post-dominates the increment',
         'C19.R4': 'both guard Drop impls call release on every path; access/access_owned call acquire before building the guard',
         'C19.R5': 'only Semaphore\'s own methods read or write the fields lock / cvar',
+        'C19.R8': 'no descriptor or thread escapes the budget: every helper thread of the library that can block (opens a path, waits for a child, reads a stream to the end) is joined - directly, or by the Drop of the struct that keeps its JoinHandle - while the resource it waits for is still there (the stderr reaper of a transform opens the $OUT pipe for writing; joined in Drop for Execution before the reading end is closed)',
         'C19.R7': 'the open-file budget is counted in the unit the permits are spent in: one permit is taken per hashing task, and a task of a --transform run holds several descriptors (input file, pipes to the child, temporary copy, named pipe) - the number of permits is (RLIMIT_NOFILE - reserve) divided by at least the number of descriptor-opening call sites of one transform execution, with no floor above 1',
         'C19.R6': 'no call path from a region holding an RLIMIT_OPEN_FILES guard re-acquires that semaphore',
     },
@@ -66,6 +67,61 @@ def run(ctx):
     r5(ctx)
     r6(ctx)
     r7(ctx)
+    r8(ctx)
+
+
+BLOCKING = r'OpenOptions::open$|^std::fs::File::open$|::wait$|::recv$|read_to_string$|read_to_end$|::lock$'
+
+
+def r8(ctx):
+    """A helper thread that can block (it opens a path, waits for a process, reads a stream to its end) is joined by the owner of
+    its handle; a blocked detached thread keeps its stack and the descriptor reserved by the open() for the rest of the run."""
+    rule = 'C19.R8'
+    lib = ctx.lib
+    n = 0
+    for p_, b in sorted(lib.bodies.items()):
+        if re.search(r'(^|::|<)tests?(::|$)', p_) or b.kind in ('const', 'static', 'promoted'):
+            continue
+        for c in b.calls(r'^std::thread::spawn$|thread::Builder::spawn$'):
+            # the closure run by the thread
+            cl = None
+            l = op_local(c.args[-1])
+            if l is not None:
+                cl = lib.closure_of_type(b.local_ty(l))
+            cb = lib.body(cl) if cl else None
+            blocking = [k for k in (cb.calls(BLOCKING) if cb is not None else [])]
+            if cb is None or not blocking:
+                continue
+            n += 1
+            holders = forward_locals(b, c.dest[0]) | {c.dest[0]}
+            joined = any(k for k in b.calls(r'JoinHandle::<T>::join$|JoinHandle<.*>::join$') if op_local(k.args[0]) in holders)
+            owner = None
+            if not joined:
+                # the handle is stored in a field of a struct: its Drop has to join it
+                changed = True
+                while changed and owner is None:
+                    changed = False
+                    for blk in b.blocks:
+                        for st in blk['stmts']:
+                            if st['rv']['k'] == 'agg' and any(op_local(o) in holders for o in st['rv']['ops']):
+                                if st['rv'].get('ak') == 'adt' and not re.search(r'^(std|core)::(option|result)::', st['rv']['adt']):
+                                    fi = [i for i, o in enumerate(st['rv']['ops']) if op_local(o) in holders][0]
+                                    owner = (st['rv']['adt'], (st['rv'].get('fields') or [None] * (fi + 1))[fi])
+                                elif st['p'][0] not in holders:
+                                    holders |= forward_locals(b, st['p'][0]) | {st['p'][0]}
+                                    changed = True
+                if owner:
+                    for dp, db in lib.bodies.items():
+                        if re.search(r'^<%s as std::ops::Drop>::drop$' % re.escape(owner[0]), dp):
+                            for k in db.calls(r'JoinHandle::<T>::join$|JoinHandle<.*>::join$'):
+                                fn_ = backslice(db, [k.args[0]]).field_names()
+                                if owner[1] is None or owner[1] in fn_:
+                                    joined = True
+            ctx.check(joined, rule, '%s|blocking-thread-joined' % p_, c.where(), 'the thread spawned here (it can block in %s) is joined by %s' % (blocking[0].path.rsplit('::', 1)[-1], ('Drop of ' + owner[0]) if owner else 'its creator'),
+                      'the thread spawned here can block (%s at %s) and nobody joins it%s: when the condition it waits for never comes - the FIFO of `--transform .. $OUT` opened for writing after the reader has '
+                      'gone - the thread stays for the rest of the run together with the descriptor number its open() reserved; some hundred files later the process is out of descriptors although the '
+                      'semaphore admits only a few tasks, and readable files fail with EMFILE' % (blocking[0].path.rsplit('::', 1)[-1], cb.where(blocking[0].line), (' (the handle is kept in %s.%s, whose Drop does not join it)' % owner) if owner else ''))
+    ctx.floor(rule, 'spawned threads that can block', n, 1)
 
 
 def r12(ctx, lib, b):
